@@ -139,6 +139,13 @@ func catalog(p ScenParams) *WSpec {
 		j := ProcSpec{Name: "j", Kind: kind, Ins: []string{"x", "y"}, Outs: []OutSpec{{Name: "out", Pattern: "{i:x}.j"}}}
 		w.Procs = []ProcSpec{src, src2, j}
 		w.Edges = []Edge{fe("src", "out", "j", "x"), fe("src2", "out", "j", "y")}
+	case "gjoin5": // BOTH outputs of one two-output task are members of one sub-stream: src -> p{o1,o2} -> sub -> j.x
+		j := ProcSpec{Name: "j", Kind: "joiner", JoinSep: p.Extra}
+		pp := ProcSpec{Name: "p", Kind: "func", Ins: []string{"in"}, Outs: []OutSpec{{Name: "o1", Pattern: "{i:in}.o1"}, {Name: "o2", Pattern: "{i:in}.o2"}}}
+		sub := ProcSpec{Name: "sub", Kind: "substream", Ins: []string{"in"}}
+		w.Procs = []ProcSpec{src, pp, sub, j}
+		w.Edges = []Edge{fe("src", "out", "p", "in"), fe("p", "o1", "sub", "in"), fe("p", "o2", "sub", "in"), fe("sub", "substream", "j", "x")}
+		return w
 	case "gjoin": // src(k) -> StreamToSubStream -> {i:x|join:SEP}
 		f := strings.SplitN(p.Extra, "|", 2) // "SEP|modifier"
 		j := ProcSpec{Name: "j", Kind: "joiner", JoinSep: f[0]}
@@ -384,6 +391,10 @@ func catalog(p ScenParams) *WSpec {
 				ps.Outs[i].Pattern = "default:" + ps.Outs[i].Name
 			}
 		}
+	case "linkout": // p's command makes its output a symbolic link to a file it wrote elsewhere (absolute target)
+		if ps := w.proc("p"); ps != nil {
+			ps.LinkOut = true
+		}
 	case "appendout": // p's command appends to its output (>>): it relies on starting in an EMPTY working directory
 		if ps := w.proc("p"); ps != nil {
 			ps.Kind = "cmd"
@@ -496,7 +507,16 @@ func catalog(p ScenParams) *WSpec {
 			qs.BarrierOnly = []string{"in=in0.txt.p"}
 			qs.ZeroCores = true
 		}
-	case "recorder", "recorder2", "recorder-bfl":
+	case "recorder", "recorder2", "recorder-bfl", "recorder-b3l":
+		if p.Extra == "recorder-b3l" {
+			// the THIRD task and the last one rendezvous: two items are forwarded, then a long backlog of started
+			// tasks queues up behind the third (a queue that grows while its head is not at slot 0)
+			if ps := w.proc("p"); ps != nil {
+				ps.Barrier = "b"
+				ps.BarrierOnly = []string{"in2.txt", fmt.Sprintf("in%d.txt", p.Items-1)}
+				ps.BarrierEnd = []string{"in2.txt"}
+			}
+		}
 		if p.Extra == "recorder-bfl" {
 			// ... and the first and the last task of p rendezvous (the ones in between finish while the head task runs)
 			if ps := w.proc("p"); ps != nil {
